@@ -4,7 +4,7 @@ import "golang.org/x/tools/go/ssa"
 
 func init() {
 	register(&propDef{
-		ID: "C04",
+		ID:      "C04",
 		Explain: "For every implementation of allocators.Allocator (enumerated from the program): every BitSet operation on the allocator's bitmap executes with the allocator mutex held exclusively in every abstract state, and pool geometry fields are written only on the fresh literal in a constructor (ALLOC.LOCK); every Set(i) is justified in its own abstract state by Test(i)==false on the same canonical index, or by i being NextClear's result on its ok edge, established inside the current critical section and not invalidated since — phi-merged indices are proved per incoming path (ALLOC.TESTSET); every Clear in Allocate undoes a Set of the same index (ALLOC.ROLLBACK); every successful return hands out the index→address conversion of exactly the one bit set on the path and error returns leave no bit set (ALLOC.SAME-INDEX); rule instances exist for both implementations (ALLOC.SIBLINGS). Test-and-set atomicity under one exclusive section is the structural necessary condition for 'never returned by two Allocate calls'.",
 		Trusted: trustedBase,
 		Assume:  []string{"injectivity of index→address (toPrefix arithmetic: C20; toIP: C05.LINMAP)", "bitset's own correctness"},
@@ -19,7 +19,7 @@ func init() {
 		},
 	})
 	register(&propDef{
-		ID: "C06",
+		ID:      "C06",
 		Explain: "For both allocator implementations' Free: every bitmap index used is the pool's address→index conversion of an address shown (by a dominating branch fact on the same canonical address) to lie inside the pool — Contains(addr) for the absolute-distance toIndex, a successful range test for toOffset (FREE.CONTAIN); every Clear(i) is justified by Test(i)==true on the same index in the same critical section (FREE.TESTCLEAR); success returns clear exactly one bit, every error return — including the *ErrDoubleFree exits on the Test==false edge — leaves the bitmap untouched, and no other mutation occurs (FREE.ERR-NOEFFECT); lock discipline as in C04.",
 		Trusted: trustedBase,
 		Assume:  []string{"that index i is *the* block containing the prefix (C20 arithmetic)"},
@@ -33,7 +33,7 @@ func init() {
 		},
 	})
 	register(&propDef{
-		ID: "C07",
+		ID:      "C07",
 		Explain: "For both Allocate implementations: the first-free search (NextClear) is reached only in abstract states where the hint is definitely not usable (three-valued: hint outside the pool / conversion failed / its bit is set), and on every abstract success return where the hint is usable the bit set is the hint's index and no search ran (HINT.FIRST); the callers that rely on hints pass the stored address and check the answer (HINT.CALLERS, shared with C02.RANGE.RESTART).",
 		Trusted: trustedBase,
 		Assume:  []string{"that the hint's index is the index of the hinted block (arithmetic, C05/C20)"},
@@ -50,7 +50,7 @@ func init() {
 
 func init() {
 	register(&propDef{
-		ID: "C16",
+		ID:      "C16",
 		Explain: "Lock-discipline rules over all code reachable from the datagram handlers and from every `go` statement: every access to state in the frozen GUARDED-BY table (range Recordsv4 and its records, prefix Records and its leases, the allocator bitmaps, file.StaticRecords) happens with the guarding mutex held in the required mode in every abstract state — helpers are analysed with the locks held at all their call sites, globals shared between plugin instances are checked in setup code too (GUARDED-BY, ALLOC.LOCK); no write to guarded state depends, on its abstract path, on a fact about guarded state established in another critical section — lookup/allocate/insert is one section (ATOMIC-RMW); every other package-level variable read by handlers has no store reachable from a handler or goroutine (GLOBAL-RO); the receive buffer is returned to the pool exactly once, after parsing, never read afterwards, and each handler goroutine gets a buffer taken from the pool in its own iteration (BUF.RELEASE); all locks are released on all paths and the lock graph is acyclic (LOCKPAIR, LOCKORDER). Lock discipline implies data-race freedom of the guarded state and serialisability of each lease decision.",
 		Trusted: trustedBase,
 		Assume:  []string{"the codec copies out of the receive buffer (read and confirmed; heap aliasing of the codec is not analysed)", "races inside dependencies (logrus, sqlite)", "aliasing of shared option objects across replies (read-only today)", "multi-IA_PD messages take one critical section per IA_PD by design"},
@@ -92,7 +92,7 @@ func init() {
 
 func init() {
 	register(&propDef{
-		ID: "C02",
+		ID:      "C02",
 		Explain: "Rules on the range plugin anchored on its state (Recordsv4, the allocator, yiaddr): allocation and insertion happen only on the not-found edge of the lookup of this client's key and existing records' addresses are never overwritten (RANGE.LOOKUP-FIRST); every reply to a new client is preceded by inserting under the same key a record carrying the allocator's answer (RANGE.INSERT); allocation failure returns (nil, true) with nothing bound, persisted or answered (RANGE.EXHAUST); yiaddr is the stored binding or the address just allocated (RANGE.PROVENANCE); every reply carries option 51 built from the configured lease time (RANGE.LEASETIME); start-up re-marks every stored lease with its address as hint and refuses to start on error or mismatch (RANGE.RESTART); the whole decision is one exclusive critical section (GUARDED-BY / ATOMIC-RMW restricted to the range plugin). In-range and uniqueness of the numbers are C04/C05's allocator clauses.",
 		Trusted: trustedBase,
 		Assume:  []string{"numeric in-range and distinctness (C04/C05 + allocator arithmetic)", "sqlite durability"},
@@ -111,7 +111,7 @@ func init() {
 		},
 	})
 	register(&propDef{
-		ID: "C03",
+		ID:      "C03",
 		Explain: "Writer/reader agreement for the lease database, decided from the program's constants and SSA: the create/insert/select statements agree on columns, the key and all NOT NULL columns are written, the conflict policy replaces the row, the n-th Exec argument and n-th Scan target have the same Go type (DB.SCHEMA-AGREE); per column the writer expression and the loader's parser are an inverse pair whose domain covers everything the writer can produce — HardwareAddr.String needs a parser total on all lengths, IP.String ↔ ParseIP (DB.CODEC); the loader keys the restored map with the same canonical function of the address as the handler (DB.KEY-AGREE); loadRecords returns a nil map with every error and succeeds only after rows.Err() == nil (DB.LOAD-ALL-OR-ERROR); in the handler every new allocation and every expiry change is persisted under the client's hardware address before any reply is returned (DB.PERSIST-BEFORE-REPLY) and every stored expiry is now + lease time, the lease promised in option 51 (DB.EXPIRY).",
 		Trusted: trustedBase,
 		Assume:  []string{"sqlite type affinity of the `string` columns beyond the MAC column's one-byte case handled by the loader", "crash-atomicity of the sqlite write", "a failing saveIPAddress is logged and the reply still sent (storage faults are outside the property's quantifier)"},
@@ -132,7 +132,7 @@ func init() {
 
 func init() {
 	register(&propDef{
-		ID: "C08",
+		ID:      "C08",
 		Explain: "Rules on prefix.(*Handler).Handle anchored on its state (Records, the allocator, the OptIAPD/OptIAPrefix literals), evaluated in every abstract state and per loop iteration: every prefix added to a reply is one of this client's recorded leases or the success result of Allocate (PD.PROVENANCE); the record map is read/written only under recordKey(client id of the inner message) (PD.OWN-KEY); each iteration over the request's IA_PDs adds exactly one response IA_PD carrying the request's IAID, early exits stop the chain (PD.ONE-PER-IAPD); an empty response IA_PD carries NoPrefixAvail (PD.NOPREFIX); preferred = valid = time until expiry and every expiry is now + a constant ≤ 1h (PD.LIFETIME); a known lease is handed back only after the extension diamond on the same element, and the value sent is read after it (PD.FRESH); allocator and records are used inside the critical section (PD.LOCK + GUARDED-BY). Disjointness across clients then rests on C04's allocator rules.",
 		Trusted: trustedBase,
 		Assume:  []string{"in-pool / alignment / size of the allocator's answers (C05/C20)", "lifetimes > 0 after codec rounding"},
@@ -146,7 +146,7 @@ func init() {
 		},
 	})
 	register(&propDef{
-		ID: "C09",
+		ID:      "C09",
 		Explain: "Rules on prefix.(*Handler).Handle for lease stickiness: the value recorded for the client is built by appends onto a running accumulator seeded with the known leases, so every prefix delegated in a reply is remembered (KEEP.RECORD-ALL, an SSA phi/append shape check); a new block is allocated only in states where satisfied.Test(hint) == false was established (KEEP.REUSE-FIRST); handing back a known lease marks both the hint and the lease in the same iteration (KEEP.MARK); a known lease is reused only under samePrefix(hint, lease) or as a not-yet-given lease for an empty hint (KEEP.EXACT); plus C01's NILPATH/NILSRC on the hint prefix.",
 		Trusted: trustedBase,
 		Assume:  []string{"that a repeated request returns the same prefix *value* (needs run-time content of Records)", "lifetime not shorter than what remained (timing)", "recognition of the hint-less placeholder by the empty-hint filter is a value property (len/Equal of a zero-length IP) that the armed rules do not decide"},
@@ -154,7 +154,7 @@ func init() {
 			rulePrefix(c, "C09.", map[string]bool{"C09": true})
 			ruleGuardedBy(c, "C09.", "prefix.") // remembering a lease is a read-modify-write of Records: one critical section
 			fn := c.P.Func("plugins/prefix", "*Handler", "Handle")
-			sp := c.P.Func("plugins/prefix", "", "samePrefix")
+			sp := c.P.Anchor("samePrefix")
 			if fn != nil {
 				runSafety(c, "C09.", []*ssa.Function{fn}, nil, "NILPATH", "NILSRC")
 			}
@@ -168,7 +168,7 @@ func init() {
 
 func init() {
 	register(&propDef{
-		ID: "C10",
+		ID:      "C10",
 		Explain: "Rules on the file plugin: which loaders feed the table each handler reads (FILE.PER-PROTOCOL — the pinned tree shares one global table between both protocols: recorded known finding); every store to the served table is a whole-map swap under the write lock on the loader's err == nil edge, never an in-place edit (FILE.SWAP); both loaders return a nil map with every error and the map only after all lines (FILE.ALL-OR-NOTHING); per loop iteration a record is stored exactly for non-empty, non-comment lines with two fields, a valid MAC and an address of the loader's family, keyed by HardwareAddr.String() of the parsed MAC, and any other non-skipped line is an error (FILE.LINE-GRAMMAR, both sibling loaders); handlers look up under the same canonical key of chaddr / ExtractMAC(received packet), listed clients get exactly the listed address (v4: yiaddr + stop; v6: one IA_NA with the request's IAID, only if requested), others get nothing (FILE.LOOKUP); the watcher goroutine reloads on every event and never leaves its loop (FILE.WATCH); lock discipline of the table (GUARDED-BY).",
 		Trusted: trustedBase,
 		Assume:  []string{"net.ParseMAC / net.ParseIP grammars (stdlib)", "fsnotify event delivery ('eventually')", "last occurrence wins = Go map overwrite semantics"},
@@ -187,7 +187,7 @@ func init() {
 
 func init() {
 	register(&propDef{
-		ID: "C05",
+		ID:      "C05",
 		Explain: "IPv4: the index↔address maps are linear in (ip, start, end) and guarded only by comparisons; the rule extracts result terms and the exact branch facts of every abstract exit: toOffset succeeds iff ¬(ip < start) ∧ ¬(end < ip) (both inclusive, nothing else) and returns ip − start; toIP returns start + o exactly under o ≤ end − start, so toIP∘toOffset is the identity; the constructor enforces start ≤ end and sizes the bitmap end − start + 1 (LINMAP). IPv6: the mask length is the block size unless the hint is a longer 128-bit mask (SIZE); the constructor sizes the bitmap 2^(size − pool length) under 0 ≤ order < word size (CAP, re-run under GOARCH=386 in the thorough tier). Both: ErrNoAddrAvail is returned exactly on the failed edge of NextClear(0) with no bitmap mutation; every success return converts exactly the bit it set (FULL-IFF-FAIL, SAME-INDEX).",
 		Trusted: trustedBase,
 		Assume:  []string{"IPv6 alignment / in-pool of toPrefix(i) needs AddPrefixes' exactness (C20, not decided numerically)", "bitset.NextClear's contract (< length)", "ranges are not 0.0.0.0–255.255.255.255 (end − start + 1 wraps only there)"},
@@ -203,7 +203,7 @@ func init() {
 		},
 	})
 	register(&propDef{
-		ID: "C20",
+		ID:      "C20",
 		Explain: "Overflow *discipline* of allocators.Offset / AddPrefixes, not their numbers: every math/bits Add64/Sub64/Mul64 has its carry/borrow/high result fed to the next limb or compared with zero; every left shift of a variable is justified in its abstract state by a guard x < 2^k (or x >> k == 0) whose exponent and the shift count sum to ≤ 64 as linear terms over the prefix length; every shift of a constant has its count bounded below 64; raw +,−,× of two variable limbs are violations unless a table exception cites the ordering/guard fact that excludes wrap-around (3 exceptions in Offset, each tied to the fact it cites) (ARITH.GUARDED); every ErrOverflow return carries the zero value (ARITH.ERR-ZERO); the only callers are the bitmap allocator's toIndex/toPrefix with the pool base (ARITH.CALLERS); slices are length-checked (C01.BOUNDS). Numerical correctness, the inverse law and argument-order symmetry are NOT decided — they need a big-integer reference, which is a different technique family.",
 		Trusted: trustedBase,
 		Assume:  []string{"prefix length ≤ 128 (the functions' stated domain; callers pass the allocator's page size)", "numerical correctness of the 128-bit results is not decided"},
